@@ -19,6 +19,7 @@ this module derives, independently of each other:
 
 Expressions:  ('v', name, [index exprs]) | ('n', k) | ('op', a, b) | ('call', [args])
               | ('tern', c, a, b) | ('arr', [es]) | ('neg', e)
+              | ('anon', [params], [signals], [input names]|None)   anonymous component
 Statements:   ('decl', kw, [(name, [dims], init|None)])     kw: var | signal | signal input | signal output | component
               ('asg', name, [idx], rhs, form)               form: = <== <-- ==> -->
               ('opasg', name, [idx], rhs)   x += e          ('inc', name, [idx])   x++
@@ -56,7 +57,22 @@ def uses_pre(e):
         for a in e[1]:
             out += uses_pre(a)
         return out
+    if k == 'anon':                  # C(params)(signals) / C(params)(name <== signal, ..)
+        out = []
+        for a in e[1] + e[2]:
+            out += uses_pre(a)
+        return out + list(e[3] or [])
     raise ValueError(k)
+
+
+def has_sugar(x):
+    """Does the statement/expression tree contain a tuple assignment or an
+    anonymous component (removed by the desugarer before lifting)?"""
+    if isinstance(x, (list, tuple)):
+        if len(x) > 0 and x[0] in ('multi', 'anon'):
+            return True
+        return any(has_sugar(y) for y in x)
+    return False
 
 
 def rexpr(e):
@@ -75,6 +91,12 @@ def rexpr(e):
         return "g(%s)" % ", ".join(rexpr(a) for a in e[1])
     if k == 'arr':
         return "[%s]" % ", ".join(rexpr(a) for a in e[1])
+    if k == 'anon':
+        if e[3]:
+            sig = ", ".join("%s <== %s" % (n, rexpr(a)) for n, a in zip(e[3], e[2]))
+        else:
+            sig = ", ".join(rexpr(a) for a in e[2])
+        return "C(%s)(%s)" % (", ".join(rexpr(a) for a in e[1]), sig)
     raise ValueError(k)
 
 
@@ -404,7 +426,8 @@ def resolve(d):
 
 def forests(k, depth, leaves):
     """All sequences of items with exactly k leaves; an item is a leaf or a
-    non-empty block ('b', items) of nesting depth <= depth."""
+    block ('b', items) of nesting depth <= depth. Blocks are non-empty and
+    never consist of a single block (that nesting adds no scope pattern)."""
     if k == 0:
         yield []
         return
@@ -414,6 +437,8 @@ def forests(k, depth, leaves):
     if depth > 0:
         for inner in range(1, k + 1):
             for blk in forests(inner, depth - 1, leaves):
+                if len(blk) == 1 and blk[0][0] == 'b':
+                    continue
                 for rest in forests(k - inner, depth, leaves):
                     yield [('b', blk)] + rest
 
@@ -427,9 +452,16 @@ def count_forests(k, depth, nleaves, memo={}):
     n = nleaves * count_forests(k - 1, depth, nleaves)
     if depth > 0:
         for inner in range(1, k + 1):
-            n += count_forests(inner, depth - 1, nleaves) * count_forests(k - inner, depth, nleaves)
+            n += (count_forests(inner, depth - 1, nleaves) - _single(inner, depth - 1, nleaves)) * count_forests(k - inner, depth, nleaves)
     memo[key] = n
     return n
+
+
+def _single(k, depth, nleaves):
+    """Number of forests with k leaves (depth <= depth) that are one block."""
+    if depth <= 0 or k == 0:
+        return 0
+    return count_forests(k, depth - 1, nleaves) - _single(k, depth - 1, nleaves)
 
 
 def realise(items, rng, kind, counter):
@@ -607,6 +639,13 @@ def rand_def(rng, size, names=None, kind=None, clean=False):
             return ('log', [expr(vis)])
         if r < 0.64:
             return ('assert', expr(vis))
+        if r < 0.67 and not clean and kind == "template":
+            if rng.random() < 0.5:
+                return ('multi', [rng.choice(names), rng.choice(names)], [expr(vis, 1), expr(vis, 1)])
+            anon = ('anon', [expr(vis, 1)], [expr(vis, 1), expr(vis, 1)], ["in1", "in2"] if rng.random() < 0.5 else None)
+            n = rng.choice(names)
+            vis.add(n)
+            return ('decl', "signal", [(n, [], anon)])
         if depth < 4 and budget[0] > 0:
             if r < 0.72:
                 return braced(vis, depth)
